@@ -1,4 +1,5 @@
 import FGVerif.Proofs.C15
+import FGVerif.Proofs.C15General
 #print axioms C15.balanced_mapped
 #print axioms C15.balanced_mapped_of
 #print axioms C15.reaction_nodes_eq
@@ -9,3 +10,12 @@ import FGVerif.Proofs.C15
 #print axioms C15.halves_wf
 #print axioms C15.getIts_labels
 #print axioms C15.da_counts
+#print axioms C15.superposition_general
+#print axioms C15.getIts_small_eq_general
+#print axioms C15.superGeneralB_reaction
+#print axioms C15.resuperGeneralB_ok
+#print axioms C15.halves_dom
+#print axioms C15.generalOk_finish
+#print axioms C15.G.halves_renamed
+#print axioms C15.G.nameByAam_toGr
+#print axioms C15.G.itsOK_toGr
